@@ -151,6 +151,7 @@ type popCtl struct {
 	cnt    [3]int // entries per group by nesting depth
 	lenSel int    // value length selector
 	route  int    // 0: Set on the template value; 1: replace by constructor value; 2: FromBytes
+	strict bool   // population errors are violations (C17, C02)
 	first  bool   // force the first member of every entry to be populated (C02 precondition)
 	vals   []tv   // typed values drawn, in walk order (for C02 comparison)
 }
@@ -338,20 +339,33 @@ func (p *popCtl) populate(ds []*nd, items []fix.Item, depth int, exp *[]field, f
 			v, text := p.drawValue(d.k)
 			p.vals = append(p.vals, v)
 			err := p.setLeaf(items[i].(*fix.KeyValue), v, text)
-			zz.Assert(err == nil, "populating a field through a public route must not fail: tag "+d.tag)
+			if p.strict {
+				zz.Assert(err == nil, "populating a field through a public route must not fail: tag "+d.tag)
+			} else if err != nil {
+				continue
+			}
 			*exp = append(*exp, field{d.tag, text})
 		case nComp:
 			p.populate(d.kids, items[i].(*fix.Component).Items(), depth, exp, false)
 		case nGroup:
 			g := items[i].(*fix.Group)
 			n := p.cnt[depth%3]
-			if n > 0 {
-				*exp = append(*exp, field{d.tag, []byte(strconv.Itoa(n))})
-			}
+			// the count field gives the number of entries that carry at least one field
+			var sub []field
+			nonEmpty := 0
 			for e := 0; e < n; e++ {
 				entry := g.AsTemplate()
-				p.populate(d.kids, entry, depth+1, exp, p.first)
+				var ef []field
+				p.populate(d.kids, entry, depth+1, &ef, p.first)
 				g.AddEntry(entry)
+				if len(ef) > 0 {
+					nonEmpty++
+					sub = append(sub, ef...)
+				}
+			}
+			if nonEmpty > 0 {
+				*exp = append(*exp, field{d.tag, []byte(strconv.Itoa(nonEmpty))})
+				*exp = append(*exp, sub...)
 			}
 		}
 	}
@@ -457,4 +471,10 @@ func frameOK(out []byte, t8, t9, t35, t10 string, bs, mt []byte) bool {
 	ok = zz.And(ok, out[n-3] == byte('0'+sum/10%10))
 	ok = zz.And(ok, out[n-2] == byte('0'+sum%10))
 	return ok
+}
+
+// shapeClass names the (template, route, entry counts) class of the current job: used to keep
+// distinct counterexamples apart and to key known findings.
+func shapeClass() string {
+	return "tmpl=" + strconv.Itoa(zz.Param(0)) + "/route=" + strconv.Itoa(zz.Param(6)) + "/cnt=" + strconv.Itoa(zz.Param(2)) + "," + strconv.Itoa(zz.Param(3)) + "," + strconv.Itoa(zz.Param(4))
 }
